@@ -154,7 +154,11 @@ def template_line(layout):
         return _TEMPLATE_LINE[layout]
     fname = layouts.LAYOUTS[layout][6]
     scn = core.Scenario([core.FileSpec(fname, layouts.template(layout), 1600000000)], ["--color", "never", "--tz-offset", "+00:00", fname], None, "UTC")
-    res = core.execute(scn, core.Plan(seed=1, policy="lowest"))
+    fps, core.FINGERPRINTS = core.FINGERPRINTS, None     # a per-process cached auxiliary run: not part of any case's fingerprint
+    try:
+        res = core.execute(scn, core.Plan(seed=1, policy="lowest"))
+    finally:
+        core.FINGERPRINTS = fps
     ln = res.stdout.split(b"\n")[0].lstrip(b"\x00")
     _TEMPLATE_LINE[layout] = ln if ln.startswith((b"ut_", b"ac_")) else None
     return _TEMPLATE_LINE[layout]
